@@ -61,6 +61,8 @@ structure DState where
   /-- lock-protocol slice `c11p`: the kernel's lock table and the harness's names for descriptions -/
   lk : Lock.State := {}
   lkSlots : List (String × Nat) := []
+  /-- slice `c11sys`: the process that owns the store of `w` -/
+  lkOwner : Option Nat := none
 
 def showIdxPanic : IdxPanic → String
   | .decrementZero => "decrementZero" | .hashNotFound => "hashNotFound"
@@ -683,7 +685,7 @@ def storeStep (w : World) (toks : List String) : Option (World × String) :=
 
 /-- slice `c11p`: calls of `open`, clones, drops and process deaths by several processes -/
 def lkStep (st : DState) : List String → Option (DState × String)
-  | ["reset"] => some ({ st with lk := {}, lkSlots := [] }, "ok")
+  | ["reset"] => some ({ st with lk := {}, lkSlots := [], lkOwner := none }, "ok")
   | ["open", slot, p, mode] => do
     let p ← p.toNat?
     let (good, stats) ← (match mode with
@@ -721,8 +723,46 @@ def lkStep (st : DState) : List String → Option (DState × String)
     some (st, if sorted.isEmpty then "-" else ",".intercalate sorted)
   | _ => none
 
+/-- slice `c11sys`: process `p` sends one request. Several processes, ONE world: the store is
+    the owner's (`C11System.mRun_eq_lRun`); a call of `open` by anybody while it is owned is
+    refused and changes nothing; requests of a process that does not own it find no handle. -/
+def atStep (st : DState) (p : Nat) (toks : List String) : Option (DState × String) :=
+  match toks with
+  | ["open"] =>
+    match st.lkOwner with
+    | some _ =>
+      let (evs, r) := openScript H st.w.cfg st.w.disk true
+      let (w', _) := st.w.exec evs id
+      some ({ st with w := w' }, match r with | .ok _ => "ok second-handle" | .error e => "err " ++ showOpenErr e)
+    | none =>
+      match storeStep st.w ["open"] with
+      | some (w', r) => some ({ st with w := w', lkOwner := if w'.handle.isSome then some p else none }, r)
+      | none => none
+  | ["die"] =>
+    if st.lkOwner = some p then
+      match storeStep st.w ["exit"] with
+      | some (w', _) => some ({ st with w := w', lkOwner := none }, "ok")
+      | none => none
+    else some (st, "ok")
+  | ["close"] =>
+    if st.lkOwner = some p then
+      match storeStep st.w ["close"] with
+      | some (w', r) => some ({ st with w := w', lkOwner := none }, r)
+      | none => none
+    else some (st, "ok")
+  | _ =>
+    if st.lkOwner = some p then
+      match storeStep st.w toks with
+      | some (w', r) => some ({ st with w := w' }, r)
+      | none => none
+    else some (st, "nohandle")
+
 def step (st : DState) (line : String) : DState × String :=
   match line.trimAscii.toString.splitOn " " with
+  | "at" :: p :: rest =>
+    match p.toNat? with
+    | some p => (match atStep st p rest with | some r => r | none => (st, "bad-op"))
+    | none => (st, "bad-op")
   | "lk" :: rest =>
     match lkStep st rest with
     | some r => r
